@@ -201,7 +201,7 @@ class AASXReader:
             if obj.id in object_store:
                 if override_existing:
                     logger.info("Overriding existing object in  ObjectStore with {} ...".format(obj))
-                    object_store.discard(obj)
+                    object_store.discard(object_store.get_identifiable(obj.id))
                 else:
                     logger.warning("Skipping {}, since an object with the same id is already contained in the "
                                    "ObjectStore".format(obj))
@@ -260,7 +260,12 @@ class AASXReader:
                     continue
                 absolute_name = pyecma376_2.package_model.part_realpath(element.value, part_name)
                 logger.debug("Reading supplementary file {} from AASX package ...".format(absolute_name))
-                with self.reader.open_part(absolute_name) as p:
+                try:
+                    part = self.reader.open_part(absolute_name)
+                except KeyError:
+                    logger.warning("Could not find supplementary file %s in the AASX package. Skipping it.", absolute_name)
+                    continue
+                with part as p:
                     final_name = file_store.add_file(absolute_name, p, self.reader.get_content_type(absolute_name))
                 element.value = final_name
 
